@@ -466,7 +466,7 @@ func (w *workerProc) readResultWatched(c *Check, seed uint64) (*workerResult, er
 		limit = 10 * time.Minute
 	}
 	deadline := time.After(limit)
-	tick := time.NewTicker(time.Second)
+	tick := time.NewTicker(250 * time.Millisecond)
 	defer tick.Stop()
 	for {
 		select {
@@ -475,7 +475,11 @@ func (w *workerProc) readResultWatched(c *Check, seed uint64) (*workerResult, er
 		case <-tick.C:
 			if rss := rssOf(w.cmd.Process.Pid); rss > 12<<30 {
 				w.watchdog = fmt.Sprintf("WATCHDOG: seed %d: worker resident memory %d MiB", seed, rss>>20)
-				w.cmd.Process.Signal(syscall.SIGQUIT)
+				if rss > 20<<30 {
+					w.cmd.Process.Kill() // growing by gigabytes per second: protect the machine first
+				} else {
+					w.cmd.Process.Signal(syscall.SIGQUIT)
+				}
 				x := <-ch
 				return nil, fmt.Errorf("watchdog: %v", x.err)
 			}
